@@ -1,4 +1,6 @@
 import SpVerif.Proofs.PusCrcAccept
+import SpVerif.Proofs.CfdpCrcAccept
+import SpVerif.Props.C05
 import SpVerif.Model.Srv1
 /-!
 # C04 — a corrupted CRC-protected packet is never accepted as valid (PUS TC, PUS TM and wrappers)
@@ -17,7 +19,10 @@ offset `k` (bit 0 = most significant bit of octet 0); `B` is any non-zero patter
 * `C04_*_burst_rejected`     — every burst inside an accepted packet (in particular a packed one,
   followed by anything) is refused with a documented error and fails `check_pus_crc`.
 
-The CFDP clause of the property is NOT in this file yet (see manifest/C04.json).
+CFDP (section at the end): the theorems are about the part every PDU decoder runs first — fixed header
+decode + `verify_length_and_checksum` (`CfdpFront.pduFront`, `directiveFront`) — and about the tail of
+every PDU `pack()` (`CfdpFront.framePdu`). Length-determining octets: 0–3 (`AvoidsFixedHeader`).
+The PDU bodies (EOF, Finished, …) are not modelled here; see manifest/C04.json.
 -/
 namespace SpVerif.Props.C04
 open SpVerif SpVerif.SpacePacket SpVerif.Crc SpVerif.PusCrc
@@ -266,6 +271,125 @@ theorem C04_wrappers_burst_rejected (t : Tm) (wf : C03.WF t) (p rest d' : Bytes)
 
 end TM
 
+/-! ## CFDP PDUs built with the CRC flag -/
+section CFDP
+open SpVerif.CfdpHeader SpVerif.CfdpFront SpVerif.CfdpCrc
+
+/-- PDU length, header length and CRC flag are functions of octets 0–3 only -/
+theorem C04_cfdp_declared_len_octets_0_3 (d d' : Bytes) (h : ∀ i, i < 4 → d'[i]? = d[i]?) :
+    cfdpHeaderLen d' = cfdpHeaderLen d ∧ cfdpDeclaredLen d' = cfdpDeclaredLen d ∧ cfdpCrcFlag d' = cfdpCrcFlag d :=
+  fixed_congr h
+
+/-- **the tail of every PDU `pack()` always produces a valid trailer**: for ANY header field values,
+    with the CRC flag the assembled PDU is `header ‖ body ‖ CRC(header ‖ body)`: residue zero. -/
+theorem C04_cfdp_frame_always_valid (h : PduHeader) (body p : Bytes) (hf : framePdu h body = .ok p)
+    (hc : h.conf.crcFlag = 1) : crc16 p = 0 := by
+  unfold framePdu at hf
+  cases hp : h.pack with
+  | error e => simp [hp, bind, Except.bind] at hf
+  | ok hd =>
+    simp only [hp, bind, Except.bind, pure, Except.pure, hc, ↓reduceIte] at hf
+    have := Except.ok.inj hf
+    subst this
+    exact crc16_residue _
+
+/-- **every valid CRC-flagged PDU passes**: header in the C05 domain, any body, data-field length =
+    |body| + 2: the framed PDU has residue zero, exactly the declared length, and the front of every
+    decoder accepts it (whatever follows in the buffer), returning the header. -/
+theorem C04_cfdp_valid_passes (h : PduHeader) (wf : C05.WF h) (body rest : Bytes) (hc : h.conf.crcFlag = 1)
+    (hl : h.dataFieldLen = body.length + 2) :
+    ∃ p, framePdu h body = .ok p ∧ crc16 p = 0 ∧ p.length = h.packetLen ∧ pduFront (p ++ rest) = .ok h ∧
+      cfdpDeclaredLen (p ++ rest) = p.length ∧ cfdpCrcFlag (p ++ rest) = 1 := by
+  let p := C05.Spec.octets h ++ body ++ crcTrailer (C05.Spec.octets h ++ body)
+  have hf : framePdu h body = .ok p := by
+    simp [framePdu, C05.C05_pack_exact h wf, bind, Except.bind, pure, Except.pure, hc, p]
+  have hz : crc16 p = 0 := crc16_residue _
+  have hlen : p.length = h.packetLen := by
+    have := (C05.C05_len h wf).2.1
+    simp only [p, List.length_append, crcTrailer, be16, List.length_cons, List.length_nil, PduHeader.packetLen]
+    omega
+  have hu : PduHeader.unpack (p ++ rest) = .ok h := by
+    have : p ++ rest = C05.Spec.octets h ++ (body ++ crcTrailer (C05.Spec.octets h ++ body) ++ rest) := by
+      simp [p]
+    rw [this]; exact C05.C05_roundtrip h wf _
+  have hv : h.verifyLengthAndChecksum (p ++ rest) = .ok h.packetLen := by
+    rw [verify_eq]
+    have g1 : ¬ (p ++ rest).length < h.packetLen := by simp only [List.length_append]; omega
+    have g2 : ¬ (h.conf.crcFlag = 1 ∧ crc16 ((p ++ rest).take h.packetLen) ≠ 0) := by
+      rw [← hlen, List.take_left' rfl]; simp [hz]
+    rw [if_neg g1, if_neg g2]
+  have hfr : pduFront (p ++ rest) = .ok h := (pduFront_ok_iff _ _).mpr ⟨hu, _, hv⟩
+  obtain ⟨e1, e2, _, _⟩ := unpack_fixed hu
+  exact ⟨p, hf, hz, hlen, hfr, by rw [← e1, hlen], by rw [← e2, hc]⟩
+
+/-- **acceptance implies CRC**: `verify_length_and_checksum` returning for a header with the CRC flag
+    means residue zero over exactly the declared PDU, which lies inside the buffer. -/
+theorem C04_cfdp_accept_implies_crc (h : PduHeader) (d : Bytes) (n : Nat)
+    (hv : h.verifyLengthAndChecksum d = .ok n) (hc : h.conf.crcFlag = 1) :
+    n = h.packetLen ∧ h.packetLen ≤ d.length ∧ crc16 (d.take h.packetLen) = 0 :=
+  verify_accept_crc hv hc
+
+/-- the same seen from the buffer: any decoder front that returns on a buffer whose octet 0 has the
+    CRC flag has seen residue zero over `cfdpDeclaredLen d` octets — a function of octets 0–3 only. -/
+theorem C04_cfdp_front_accept_implies_crc (d : Bytes) (h : PduHeader) (ha : pduFront d = .ok h)
+    (hc : cfdpCrcFlag d = 1) :
+    h.packetLen = cfdpDeclaredLen d ∧ cfdpDeclaredLen d ≤ d.length ∧ crc16 (d.take (cfdpDeclaredLen d)) = 0 :=
+  front_accept_crc ha hc
+
+/-- **burst rejection, strongest form**: take ANY buffer the front accepts as a CRC-flagged PDU and
+    corrupt it by any admissible burst inside the declared PDU that avoids octets 0–3. Then the
+    header still decodes to the same lengths and flag, `verify_length_and_checksum` raises
+    `InvalidCrc`, hence every decoder built on the front — whatever it does afterwards with the body —
+    fails with `InvalidCrc` and returns no object; likewise the file-directive front. -/
+theorem C04_cfdp_burst_rejected_of_accepted (d d' : Bytes) (h : PduHeader) (k : Nat) (B : List Bool)
+    (ha : pduFront d = .ok h) (hc : cfdpCrcFlag d = 1) (hb : Burst d d' k B) (hp : Pattern B)
+    (hin : k + B.length ≤ 8 * cfdpDeclaredLen d) (hav : AvoidsFixedHeader k) :
+    (∃ h', PduHeader.unpack d' = .ok h' ∧ h'.packetLen = h.packetLen ∧ h'.conf.crcFlag = 1 ∧
+        h'.verifyLengthAndChecksum d' = .error .crc) ∧
+    pduFront d' = .error .crc ∧
+    (∀ (α : Type) (body : PduHeader → Py α), (pduFront d' >>= body) = .error .crc) ∧
+    (∀ c, directiveFront d = .ok (h, c) → directiveFront d' = .error .crc ∧
+        ∀ (α : Type) (body : PduHeader × Nat → Py α), (directiveFront d' >>= body) = .error .crc) ∧
+    cfdpDeclaredLen d' = cfdpDeclaredLen d ∧ crc16 (d'.take (cfdpDeclaredLen d')) ≠ 0 := by
+  obtain ⟨h', hu', e1, _, e3, hv', hne⟩ := burst_verify_crc ha hc hb hp.1 hp.2 hin hav
+  have hfr := burst_front_crc ha hc hb hp.1 hp.2 hin hav
+  refine ⟨⟨h', hu', e1, e3, hv'⟩, hfr, fun α body => front_bind_error hfr body, ?_,
+    (fixed_congr (burst_fixed hb hav)).2.1, hne⟩
+  intro c hd
+  have := burst_directiveFront_crc hd hc hb hp.1 hp.2 hin hav
+  exact ⟨this, fun α body => by rw [this]; rfl⟩
+
+/-- **burst rejection for packed CRC-flagged PDUs** (the statement of the property at the level of
+    the common front): valid header, any body, the framed PDU `p` followed by any `rest`, every
+    admissible burst inside `p` that avoids octets 0–3: the checksum error, never an object. -/
+theorem C04_cfdp_burst_rejected (h : PduHeader) (wf : C05.WF h) (body p rest d' : Bytes) (k : Nat) (B : List Bool)
+    (hc : h.conf.crcFlag = 1) (hl : h.dataFieldLen = body.length + 2) (hf : framePdu h body = .ok p)
+    (hb : Burst (p ++ rest) d' k B) (hp : Pattern B) (hin : k + B.length ≤ 8 * p.length)
+    (hav : AvoidsFixedHeader k) :
+    pduFront d' = .error .crc ∧
+    (∀ (α : Type) (dec : PduHeader → Py α), (pduFront d' >>= dec) = .error .crc) ∧
+    crc16 (d'.take p.length) ≠ 0 := by
+  obtain ⟨p0, hf0, _, _, hfr, hdl, hcf⟩ := C04_cfdp_valid_passes h wf body rest hc hl
+  have : p0 = p := Except.ok.inj (hf0.symm.trans hf)
+  subst this
+  obtain ⟨_, h2, h3, _, h5, h6⟩ :=
+    C04_cfdp_burst_rejected_of_accepted _ d' h k B hfr hcf hb hp (by rw [hdl]; exact hin) hav
+  rw [h5, hdl] at h6
+  exact ⟨h2, h3, h6⟩
+
+/-- the PDU alone, corrupted by `flipBurst`: what the fault enumeration runs against the real classes -/
+theorem C04_cfdp_flip_rejected (h : PduHeader) (wf : C05.WF h) (body p : Bytes) (k : Nat) (B : List Bool)
+    (hc : h.conf.crcFlag = 1) (hl : h.dataFieldLen = body.length + 2) (hf : framePdu h body = .ok p)
+    (hp : Pattern B) (hin : k + B.length ≤ 8 * p.length) (hav : AvoidsFixedHeader k) :
+    pduFront (flipBurst p k B) = .error .crc ∧ crc16 (flipBurst p k B) ≠ 0 := by
+  have hb : Burst (p ++ []) (flipBurst p k B) k B := by
+    rw [List.append_nil]; exact flipBurst_spec p k B hin
+  obtain ⟨h1, _, h3⟩ := C04_cfdp_burst_rejected h wf body p [] _ k B hc hl hf hb hp hin hav
+  rw [← flipBurst_length p k B, List.take_length] at h3
+  exact ⟨h1, h3⟩
+
+end CFDP
+
 -- non-vacuity: the hypotheses of the rejection theorems are met by concrete packets and bursts
 example : C02.WF ⟨⟨0, 1, 1, 0x7FF, 3, 16383, 8⟩, ⟨0b1010, 17, 1, 0xBEEF⟩, [1, 2]⟩ ∧
     Pattern [true, false, true] ∧ AvoidsLenField 117 3 ∧ 117 + 3 ≤ 8 * 15 := by
@@ -276,5 +400,11 @@ example : C03.WF ⟨⟨5, 0, 1, 0x7FF, 3, 16383, 13⟩, ⟨9, 17, 2, 0xABCD, 0xB
     Pattern [true, true] ∧ AvoidsLenField 30 2 := by
   refine ⟨⟨by decide, ?_, by decide⟩, by decide, by decide⟩
   unfold C03.WFSec; decide
+
+-- a CRC-flagged file-directive header (2-octet entity ids, 4-octet sequence number) with a 7-octet body
+example : C05.WF ⟨0, 0, 9, ⟨⟨2, 0x1234⟩, ⟨2, 0xFFFF⟩, ⟨4, 7⟩, 1, 0, 1, 0, 0⟩⟩ ∧
+    (9 : Nat) = ([4, 0x50, 1, 2, 3, 4, 5] : Bytes).length + 2 ∧ CfdpCrc.AvoidsFixedHeader 32 ∧ Pattern [true] := by
+  refine ⟨?_, by decide, by decide, by decide⟩
+  unfold C05.WF C05.WFField CfdpHeader.okWidth; decide
 
 end SpVerif.Props.C04
